@@ -1079,6 +1079,11 @@ func (c *IPAMController) checkAllocations() ([]string, error) {
 			// not in the Kubernetes API. Additionally, we've checked that there are no
 			// outstanding valid allocations on the node. Leave the node dirty — it will be
 			// marked clean by releaseNodes once cleanup succeeds.
+			// Make sure the node really is in the dirty set: a full sync visits nodes that are not dirty, and if
+			// this sync fails before releaseNodes (e.g. ReleaseIPs returns an error) the retry is dirty-only. Without
+			// this the node would not be re-checked, and allocations confirmed as leaks with knode == "" would be
+			// released on the retry even if the node has come back in the meantime.
+			c.allocationState.markDirty(cnode, "pending affinity release")
 			nodesToRelease = append(nodesToRelease, cnode)
 		} else {
 			// Node still exists in Kubernetes, we've finished checking it.
